@@ -28,6 +28,7 @@ structure Attrs where
   ctrlTask : Bool := false      -- `start`: the control task has been created
   started : Bool := false       -- `super().start()` was called
   output : Option Int := none   -- `init_regular`
+  startLog : List String := []  -- the steps of `start`, in order
   deriving DecidableEq, Repr
 
 def kindToMode : CtrlKind → CtrlMode
@@ -71,10 +72,10 @@ def initP0 (st : Option Int) : InitPrims Attrs InitErr ArgSpec EvArg Nat (Option
     | none => M.raise .superInit
   getGuard s := s.guard
   getStopTimeout s := s.stopTimeout
-  superStart := M.modify fun s => { s with started := true }
-  newQueue := M.modify fun s => { s with queue := true }
-  createCtrlTask := M.modify fun s => { s with ctrlTask := true }
-  setOutputZero := M.modify fun s => { s with output := some 0 }
+  superStart := M.modify fun s => { s with started := true, startLog := s.startLog ++ ["super().start"] }
+  newQueue := M.modify fun s => { s with queue := true, startLog := s.startLog ++ ["queue"] }
+  createCtrlTask := M.modify fun s => { s with ctrlTask := true, startLog := s.startLog ++ ["control task"] }
+  setOutput n := M.modify fun s => { s with output := some n }
 
 /-- in the constructors `_check_arg(name, arg)` is the translated `_check_arg` -/
 def initP (st : Option Int) : InitPrims Attrs InitErr ArgSpec EvArg Nat (Option Int) Data :=
@@ -278,7 +279,7 @@ def funcP (cfg : FuncCfg) (f : Func) (sdRun : M (List FEv) FExc (String × (FExc
     | .user n => M.modify fun log => log ++ [.error d n]
     | .keyError _ => M.pure ()
   sendSuccess d v := M.modify fun log => log ++ [.success d v]
-  setOutputFalse := M.pure ()
+  setOutputBool b := M.modify fun log => log ++ [.output b]
   hasStopData := cfg.stopData.isSome
   eventPutStopData := sdRun
   superStop := M.modify fun log => log ++ [.superStop]
